@@ -52,8 +52,8 @@ func verifyRow(s *bt.Srv, t *bt.MTable, table string, key bt.BS) string {
 	return ""
 }
 
-func verifyScan(s *bt.Srv, t *bt.MTable, parent, table string) string {
-	got := s.ReadAll(parent, table)
+func verifyScan(s bt.Execer, t *bt.MTable, parent, table string) string {
+	got := bt.ScanAll(s, parent, table)
 	if mis := t.VerifyScan(got); mis != "" {
 		return "full scan: " + mis
 	}
